@@ -151,9 +151,13 @@ class DecoratorRegistry:
                 # listen to the queue
                 #
                 State.set(test_handshake[0], test_handshake[1])
-        await dm.start()
-
-        ret = await dm.wait_until()
+        try:
+            await dm.start()
+            ret = await dm.wait_until()
+        finally:
+            # also stop if the waiting task is canceled
+            if dm.status is DecoratorManagerStatus.RUNNING:
+                await dm.stop()
 
         return ret
 
